@@ -1348,6 +1348,23 @@ def rule_boundary(ctx, cfg, r):
                 r.fail(fn, "boundary-origin/" + arm, "BlockBoundary is reported outside (BlockDone ∧ non-final block ∧ flag): %s" % x.describe(8))
     if n == 0:
         r.fail(fn, "boundary-origin", "no path reports BlockBoundary although the feature is enabled")
+    # every block ends in BlockDone: the next block header is reached only from the stream prologue or from BlockDone, and a
+    # non-final BlockDone under the flag always stops (never continues silently) — "exactly one stop after each non-final block"
+    PROLOGUE = ("Start", "ReadZlibCmf", "ReadZlibFlg")
+    T = M.transitions()
+    preds = sorted(a for a, outs in T.items() if ("jump", "ReadBlockHeader") in outs)
+    extra = [a for a in preds if a not in PROLOGUE + ("BlockDone",)]
+    if "BlockDone" in preds and not extra:
+        r.ok(fn, "boundary-funnel", "ReadBlockHeader is entered only from %s" % preds)
+    else:
+        r.fail(fn, "boundary-funnel", "state(s) %s continue with the next block header without passing through BlockDone, the only place "
+               "that honours STOP_ON_BLOCK_BOUNDARY: no stop is reported after such a block" % (extra or "(BlockDone missing)"))
+    for x in M.arm_rows("BlockDone"):
+        if x.kind == "jump" and x.target == "ReadBlockHeader":
+            flag_on = any(a[0] == "bin" and a[1] == "Ne" and a[2][0] == "bin" and a[2][1] == "BitAnd" and is_const(a[2][3]) and
+                          const_val(a[2][3]) == SOB and s.single() == 1 for a, s in x.atoms)
+            if flag_on:
+                r.fail(fn, "boundary-skip", "BlockDone continues with the next block although STOP_ON_BLOCK_BOUNDARY is set: %s" % x.describe(8))
     # without the flag the same branch continues with the next block header
     for x in M.arm_rows("BlockDone"):
         if x.kind == "jump" and x.target == "ReadBlockHeader":
@@ -1829,3 +1846,60 @@ def _persistent_root(M, root):
         return False
     nm = M.fn.local_name(root[2])
     return nm in ("l", "out_buf", "in_iter", "state", "status")
+
+
+# ---------------------------------------------------------------------------------------------- R03.8 tables rebuilt from scratch
+def rule_tables_from_scratch(ctx, cfg, r):
+    """init_tree builds a table from the code sizes alone: before anything is inserted the whole fast table is overwritten, and —
+    for the two tables that can have codes longer than the fast-lookup width — the whole overflow tree is zeroed (the builder treats a
+    non-zero slot as an existing child).  A partial clear leaves nodes of the previous block's / stream's table in place."""
+    c = ctx.crate(cfg)
+    E = ctx.effects(cfg)
+    f = c.fn("inflate::core::init_tree")
+    ctx.touched(f)
+    HUFFLEN = c.const_int("inflate::core::HUFFLEN_TABLE")
+    rows = paths.Evaluator(c, effects=E, pure_calls=sm.PURE, max_paths=4000).run(f)
+
+    def whole_field(t, field):
+        """t = &mut (place whose last projection is .field of HuffmanTable), possibly unsized"""
+        while t and t[0] in ("cast",):
+            t = t[1]
+        if not t or t[0] not in ("ref", "addr"):
+            return False
+        pl = t[-1] if t[0] == "ref" and isinstance(t[-1], tuple) else t[1]
+        for cand in t[1:]:
+            if isinstance(cand, tuple) and cand and cand[0] == "fld":
+                pl = cand
+        return isinstance(pl, tuple) and pl and pl[0] == "fld" and pl[2] == field and pl[3].endswith("HuffmanTable")
+    n = 0
+    for x in rows:
+        if x.outcome[0] == "diverge":
+            continue
+        bts = None
+        for a, s in x.atoms:
+            if a[0] == "cast" and paths.is_load_of(a[1], "block_type"):
+                bts = s
+        if bts is None or not bts.subset_of(ISet.of(0, 1, 2)):
+            continue        # not a table kind: returns None before touching anything
+        n += 1
+        fills = [e for e in x.effects if e[0] == "call" and e[1].endswith("::fill")]
+        stores = x.stores()
+        lk = any(whole_field(e[2][0], "look_up") for e in fills)
+        tr = any(whole_field(e[2][0], "tree") and is_const(e[2][1]) and const_val(e[2][1]) == 0 for e in fills)
+        if not lk:
+            r.fail(f.name, "scratch:look_up", "init_tree does not overwrite the whole fast lookup table before building: entries of the previous table survive "
+                   "(fills: %s)" % [tstr(e[2][0])[:70] for e in fills], where=first_span(x), path=row_path(x, 6))
+        else:
+            r.ok(f.name, "scratch:look_up", "whole look_up array filled first")
+        if bts.contains(HUFFLEN) and bts.single() is None:
+            r.fail(f.name, "scratch:kind", "table kind not decided on this path")
+        elif bts.single() == HUFFLEN:
+            r.ok(f.name, "scratch:tree-hufflen", "code-length table: codes are at most 7 bits (3-bit length fields), the overflow tree is never used")
+        elif tr:
+            r.ok(f.name, "scratch:tree", "whole overflow tree zeroed first")
+        else:
+            r.fail(f.name, "scratch:tree", "init_tree does not zero the whole overflow tree before building a literal/length or distance table: "
+                   "nodes left by the previous table are taken for existing children (fills: %s)" % [tstr(e[2][0])[:70] for e in fills],
+                   where=first_span(x), path=row_path(x, 6))
+    if n < 6:
+        r.fail(f.name, "scratch:rows", "only %d table-building rows of init_tree found" % n)
